@@ -1,4 +1,49 @@
-(* C16 placeholder, replaced below *)
-From RV Require Import Model.Mapping.
-Theorem C16_placeholder : True. Proof. exact I. Qed.
-Eval cbv in "ASSUMPTIONS-OF C16_placeholder"%string. Print Assumptions C16_placeholder.
+(* C16  Missing classes fail the node unless configured to be ignored.  Statements only; proofs in
+   Proofs/NodeFacts.v about read_class of Model/Node.v.  The pattern match is the regex oracle
+   [c_matches] (class names matched by the compiled pattern set).  That an ignored class leaves
+   parameters and applications untouched is immediate from the walk (the entry is skipped before
+   anything is merged) and is checked on twin inventories on every run. *)
+From RV Require Import Model.Node Proofs.NodeFacts.
+
+Theorem C16_missing_class_fails_naming_it :
+  forall cfg tbl loc name,
+    find_class (abs_class_name loc name) tbl = None ->
+    c_ignore cfg && mem (abs_class_name loc name) (c_matches cfg) = false ->
+    read_class cfg tbl loc name = Err (EClassNotFound (abs_class_name loc name)).
+Proof. exact read_class_missing_fails. Qed.
+Eval cbv in "ASSUMPTIONS-OF C16_missing_class_fails_naming_it"%string. Print Assumptions C16_missing_class_fails_naming_it.
+
+Theorem C16_ignored_missing_class_is_skipped :
+  forall cfg tbl loc name,
+    find_class (abs_class_name loc name) tbl = None ->
+    c_ignore cfg = true -> mem (abs_class_name loc name) (c_matches cfg) = true ->
+    read_class cfg tbl loc name = Ok None.
+Proof. exact read_class_missing_ignored. Qed.
+Eval cbv in "ASSUMPTIONS-OF C16_ignored_missing_class_is_skipped"%string. Print Assumptions C16_ignored_missing_class_is_skipped.
+
+(** Existing classes are never skipped by these settings: the result does not depend on them. *)
+Theorem C16_existing_class_never_skipped :
+  forall cfg tbl loc name ce,
+    find_class (abs_class_name loc name) tbl = Some ce ->
+    read_class cfg tbl loc name <> Ok None /\
+    forall cfg', read_class cfg' tbl loc name = read_class cfg tbl loc name.
+Proof. exact read_class_existing_never_skipped. Qed.
+Eval cbv in "ASSUMPTIONS-OF C16_existing_class_never_skipped"%string. Print Assumptions C16_existing_class_never_skipped.
+
+Theorem C16_flag_off_never_ignores :
+  forall cfg tbl loc name, c_ignore cfg = false -> read_class cfg tbl loc name <> Ok None.
+Proof. exact flag_off_never_ignores. Qed.
+Eval cbv in "ASSUMPTIONS-OF C16_flag_off_never_ignores"%string. Print Assumptions C16_flag_off_never_ignores.
+
+(** In the walk an ignored include contributes nothing: the loop continues with the same seen
+    list and the same accumulated node. *)
+Theorem C16_ignored_include_contributes_nothing :
+  forall fi cfg tbl recur self_loc loading c cs seen root name0,
+    include_name fi (n_params root) c = Ok name0 ->
+    mem (abs_class_name self_loc name0) seen = false ->
+    mem (abs_class_name self_loc name0) loading = false ->
+    read_class cfg tbl self_loc (abs_class_name self_loc name0) = Ok None ->
+    include_loop fi cfg tbl recur self_loc loading (c :: cs) seen root =
+    include_loop fi cfg tbl recur self_loc loading cs seen root.
+Proof. intros * H1 H2 H3 H4. cbn [include_loop]. rewrite H1. cbn [bind]. rewrite H2, H3, H4. reflexivity. Qed.
+Eval cbv in "ASSUMPTIONS-OF C16_ignored_include_contributes_nothing"%string. Print Assumptions C16_ignored_include_contributes_nothing.
